@@ -71,7 +71,11 @@ func c14Scenarios(tier string) []c14Scenario {
 	}
 	faults := []string{"none", "recv-chunk:0:error", "recv-chunk:1:error", "recv-chunk:1:exit", "send-chunk:1:exit", "between-phases:0:exit", "recv-chunk:2:exit", "send-chunk:0:exit", "send-chunk:2:exit", "recv-chunk:2:error", "recv-chunk:0:exit",
 		// the sender dies (or fails) after the destination confirmed and before it removed its own copy
-		"records-confirmed:0:exit", "shard-confirmed:0:exit", "records-confirmed:0:error", "shard-confirmed:0:error"}
+		"records-confirmed:0:exit", "shard-confirmed:0:exit", "records-confirmed:0:error", "shard-confirmed:0:error",
+		// the receiver is slow at one chunk: the call times out at the sender (these scenarios run with an
+		// rpc timeout of 1 s), is carried out late all the same, and is sent again after the back-off - the
+		// chunk arrives twice. The end-to-end checksum must notice, and a later round completes the move.
+		"recv-chunk:1:sleep1600", "recv-chunk:2:sleep1600"}
 	synth := [][]int64{{chunk + 1, 100}, {chunk - 1}, {chunk}, {2*chunk + 4096}, {2 * chunk}, {chunk + 1, 2 * chunk}}
 	var out []c14Scenario
 	n := 16
@@ -86,6 +90,7 @@ func c14Scenarios(tier string) []c14Scenario {
 		}
 		out = append(out, c14Scenario{Old: t.old, New: t.new, Fault: f, Synth: synth[i%len(synth)], Name: t.name + "/" + f})
 	}
+	out = append(out, c14Scenario{Old: []int{0}, New: []int{0, 1}, Fault: "recv-chunk:1:sleep1600", Synth: []int64{2*chunk + 4096, chunk + 1, 2 * chunk}, Name: "grow-1to2/recv-chunk:1:sleep1600"})
 	// a node that stays, gives records away to a new server AND is handed records by two leaving
 	// servers in the same synchronisation; it pauses between reading its records and sending them,
 	// so that the deliveries of the others are committed in between
@@ -191,6 +196,10 @@ func (c14) RunCase(c fw.Case, env *fw.Env) *fw.CaseResult {
 	}
 	plan := models.UserPlan{Name: "p", MaxCollections: 5, MaxCollectionPointCount: 100000, MaxPointSize: 1 << 16}
 	plans := map[string]models.UserPlan{"P": plan}
+	rpcTimeout := 30
+	if strings.HasPrefix(sc.Fault, "recv-chunk") && strings.Contains(sc.Fault, ":sleep") {
+		rpcTimeout = 1
+	}
 	mkNode := func(i int, servers []string, faultEnv string) *httpx.ProcNode {
 		// every node is configured with the same SET of servers in its own order (itself first, the
 		// others rotated): which server owns a key must not depend on the order of the list
@@ -202,7 +211,7 @@ func (c14) RunCase(c fw.Case, env *fw.Env) *fw.CaseResult {
 			}
 		}
 		spec := httpx.NodeSpec{HTTPPort: ports[6+i], Plans: plans, Cluster: cluster.ClusterNodeConfig{
-			RootDir: dirs[i], RpcHost: "localhost", RpcPort: ports[i], RpcTimeout: 30, RpcRetries: 3, Servers: servers,
+			RootDir: dirs[i], RpcHost: "localhost", RpcPort: ports[i], RpcTimeout: rpcTimeout, RpcRetries: 3, Servers: servers,
 			ShardManager: cluster.ShardManagerConfig{RootDir: dirs[i], ShardTimeout: 300, MaxCacheSize: -1},
 			MaxShardSize: 1 << 31, MaxShardPointCount: 25, MaxSearchLimit: 75}}
 		n := httpx.NewProcNode(env.Exe, env.Dir, fmt.Sprintf("node%d", i), spec)
